@@ -69,7 +69,8 @@ def c15(ctx):
                 files = dict(files)
                 files[link[1]] = ['link', link[2], files[link[1]]]
             levels.append({'files': files})
-        return {'boundary': boundary, 'levels': levels, 'start': start, 'xdev': xdev, 'compr': compr, 'defaults': (ign_idx + start + boundary) % 2 == 0}
+        return {'boundary': boundary, 'levels': levels, 'start': start, 'xdev': xdev, 'compr': compr, 'defaults': (ign_idx + start + boundary) % 2 == 0,
+                'via_link': (ign_idx * 7 + start * 3 + boundary) % 5 == 0}
     combos = itertools.product(range(0, DEPTH + 1), range(1, DEPTH + 1), (True, False), (True, False))
     combos = list(combos)
     while len(cases) < n_target:
@@ -151,6 +152,10 @@ def c15(ctx):
             iv = ii
         kinds[str(iv[0]) + ('/none' if iv[0] == 'ok' and not iv[1] else '')] = kinds.get(str(iv[0]) + ('/none' if iv[0] == 'ok' and not iv[1] else ''), 0) + 1
         if mi != iv:
+            if iv[0] == 'weird' and mi[0] == 'ok':
+                ctx.violation('spec', 'discovery returned the path %s, which does not name the Manifest it found (expected %s levels up)' % (iv[1], mi[1]),
+                              {'where': 'find_top_level', 'case': c, 'impl': iv, 'model': mi, 'devs': res['devs']})
+                continue
             clean = mi[0] == 'ok' and iv[0] == 'ok'
             if mi[0] == 'err' and iv[0] == 'ok' and mi[1][0] in ('OSError', 'BadCompressedFile', 'ManifestSyntaxError'):
                 ctx.violation('spec', 'discovery answered %s although a Manifest candidate on the way cannot be read (%s): an unreadable object '
